@@ -12,7 +12,8 @@ RULE = ("cases = histories of creating (from an assignment, from a constant), co
         "unsigned and std::set<unsigned> leaves: corpus; ALL histories of <= 3 steps over 1 and over 2 variables with leaf values {0,1} "
         "(op alphabet: every construction of full length, constants, copy, assignment of every pair, 2 unary and 2 binary codes, destroy); "
         "targeted families (shared sub-graphs released in every order, self-assignment of a sole owner, assignment over a shared / unshared root, "
-        "apply whose result is an operand or a constant, unused and shared sinks, early return of construction, extension and prefix selection) and "
+        "apply whose result is an operand or a constant, unused and shared sinks, early return of construction, extension and prefix selection, the "
+        "accumulate-through-a-temporary pattern) and "
         "random histories of up to 30 steps with small leaf domains; after EVERY step both unique-table sizes and the values of all live objects on "
         "all 2^NV assignments are compared with the model, and at the end everything is destroyed and the tables must be back at the case's baseline. "
         "A case is non-trivial when it has >= 4 steps, releases at least one node and at some moment an internal node has two referrers (distinct by case text)")
@@ -30,6 +31,7 @@ ASSUMPTIONS = [
     "an apply functor is modelled as hash-consing its functional result bottom-up (it creates exactly the nodes of the result, children first, through spawnLeaf / spawnInternal); its memo table is not modelled",
     "disposeOfInternalNode erases the table entry, releases the children and deletes the node last; the model removes table entry and node at once (nothing reads the node in between)",
     "Project and Rename are excluded, as in the property (they leave count-zero intermediates in the tables)",
+    "the recursion of release is guided by the ghost diagram of the released object (structural fuel; it is the diagram the node denotes by the invariant, never consulted for data); a heap that does not match it is a fault, excluded by C18_step_inv",
     "the driver keeps objects in std::unique_ptr slots; copy elision of returned temporaries is the compiler's business and does not change the counts after the statement",
     "correspondence is sampling: a history shape no generator produces is not covered",
 ]
@@ -124,6 +126,24 @@ def targeted(rng, tier):
         order = [a, e1, e2, x1, x2, b]; rng.shuffle(order)
         for h in order[:rng.randint(1, len(order))]: t.D(h)
         out.append(t.fmt())
+    for _ in range(150 * k):
+        # the accumulate pattern of the BDD automata: acc = op(acc, fresh construction) through a temporary, many times; copies kept alive in between
+        dom = rng.choice("us"); nv = rng.randint(2, 4)
+        t = G.Hist(dom, nv)
+        f = rng.choice((0, 1)) if dom == "u" else rng.choice((0, 3))
+        acc = t.C(G.rand_asgn(rng, nv, 0.0), rng.randrange(1, 4), 0)
+        keep = []
+        for _i in range(rng.randint(3, 9)):
+            c = t.C(G.rand_asgn(rng, nv, 0.15), rng.randrange(1, 4), 0)
+            tmp = t.B(f, acc, c)
+            if rng.random() < 0.3: keep.append(t.Y(acc))
+            t.A(acc, tmp); t.D(tmp)
+            if rng.random() < 0.7: t.D(c)
+            if keep and rng.random() < 0.3: t.D(keep.pop(rng.randrange(len(keep))))
+        if rng.random() < 0.5:
+            lv = sorted(t.live); rng.shuffle(lv)
+            for h in lv: t.D(h)
+        out.append(t.fmt())
     return out
 
 def cases(rng, tier):
@@ -160,7 +180,7 @@ CORPUS = [
 ]
 
 import re
-def flags(verd): return dict(m.groups() for m in re.finditer(r"(?:^| )([a-z]+)=(\d+)(?= |$)", verd if verd.startswith("OK") else ""))
+def flags(verd): return dict(m.groups() for m in re.finditer(r"(?:^| )([a-z]+)=(\d+)(?= |$)", "" if verd.startswith("FAIL exception") else verd))
 def nontrivial(c, impl, verd):
     w = flags(verd)
     return int(w.get("steps", 0)) >= 4 and int(w.get("released", 0)) >= 1 and " shared" in verd
@@ -196,8 +216,11 @@ LEVEL_TEXT = ("Coq theorems (all histories, no bounds) about an executable store
               "sizes are a function of the set of live diagrams (hence back to baseline). Tie to the C++: the instantiated templates rebuilt from /repo's "
               "working tree are run on generated histories; after every step both table sizes and all live values are compared with the extracted model.")
 LEVEL_NOTE = ("Trusted: Coq kernel, ExtrOcamlBasic extraction, OCaml/C++ glue, the `#define private public` read of the two table sizes, generators. The C++ is "
-              "modelled, not verified; apply is modelled as hash-consing its result (memo table not modelled); addresses are never reused in the model. "
-              "No axioms (closed under the global context).")
+              "modelled, not verified; apply and GetMtbddForPrefix are modelled as hash-consing their functional result (memo table not modelled); construction, "
+              "ExtendWith, copy, assignment, destruction and the recursive release are transcribed; addresses are never reused in the model. All theorems of "
+              "DESIGN.md 5/C18 are proved in full (no _partial theorem): step_inv, frame, no double release (per step and over a whole history), table sizes "
+              "determined by the live diagrams, baseline. The drivers run every case in a forked worker so that a crash or hang caused by a counting error "
+              "becomes a failed case. No axioms (closed under the global context).")
 TECHNIQUE = "Coq proof of a reference-counting store model; extracted-model correspondence (table sizes and values after every step) against the instantiated templates"
 DESIGN_REF = "DESIGN.md 5/C18"
-READY = False
+READY = True
